@@ -154,6 +154,10 @@ def branch(evs):
     lb = labels(evs)
     big = 'T' if has(lb, 'big', 'T') else ('F' if has(lb, 'big', 'F') else None)
     zst = 'T' if has(lb, 'zst', 'T') else ('F' if has(lb, 'zst', 'F') else None)
+    if zst == 'T' and big is None:
+        big = 'F'  # a zero-sized T is not larger than a pointer (the size class was decided by testing zero first)
+    if big == 'T' and zst is None:
+        zst = 'F'
     return big, zst
 
 
@@ -185,7 +189,7 @@ def p2(ctx):
                 ctx.violate(b.key, p, 'read does not decide on the size predicate')
             if 'FORGET' in got:
                 ctx.violate(b.key, p, 'read forgets something')
-        if not {(None, 'T'), ('T', 'F'), ('F', 'F')} <= seen and not {('T', None), ('F', 'T'), ('F', 'F')} <= seen:
+        if not {('F', 'T'), ('T', 'F'), ('F', 'F')} <= seen:
             ctx.violate(b.key, None, 'read lacks one of its three cases (zst / big / small): %s' % sorted(seen, key=str), sig='cases')
     # --- KanalPtr::write ---
     b = body(PK + 'write')
@@ -195,7 +199,10 @@ def p2(ctx):
             big, zst = branch(evs)
             got = touches(p, evs)
             ctx.oblige(1, sample='write big=%s zst=%s touches %s' % (big, zst, sorted(got)))
-            if big == 'T':
+            if big == 'T' and 'PTR_COPY' in got and 'PTR_WRITE' not in got:
+                # `copy(&d); forget(d)`: the bits go to the stored address, the source is given up
+                expect(ctx, b.key, p, got, must=('DEREF_STORED', 'PTR_COPY', 'FORGET'), mustnot=('BITCOPY', 'CELL_WRITE'), what='write of a large T')
+            elif big == 'T':
                 expect(ctx, b.key, p, got, must=('DEREF_STORED', 'PTR_WRITE'), mustnot=('BITCOPY', 'CELL_WRITE', 'FORGET'), what='write of a large T')
             elif big == 'F' and zst == 'F':
                 expect(ctx, b.key, p, got, must=('BITCOPY', 'CELL_WRITE', 'FORGET'), mustnot=('DEREF_STORED', 'PTR_WRITE'), what='write of a small T')
@@ -466,7 +473,11 @@ def p4(ctx):
                     ctx.violate(b.key, p, 'small-T write drops its argument (double drop with the receiver)')
             if big == 'T':
                 pw = [e for e in p.events if e.kind == 'call' and e.name == 'std::ptr::write']
-                if len(pw) != 1 or pw[0].args[-1] != ('param', 2):
+                pc = [e for e in p.events if e.kind == 'call' and e.name in PTR_COPY]
+                moved = len(pw) == 1 and pw[0].args[-1] == ('param', 2)
+                copied = not pw and len(pc) == 1 and pc[0].args[-3][0] in ('ref', 'rawptr') and pc[0].args[-3][1] in (('local', 2), ('local', 2, 0)) \
+                    and len(fg) == 1 and fg[0].data['val'] == ('param', 2) and fg[0].raw.idx > pc[0].idx
+                if not (moved or copied):
                     ctx.violate(b.key, p, 'large-T write does not move its argument into the destination')
                 if any(e.name == 'DROP' and e.data['val'] == ('param', 2) for e in evs):
                     ctx.violate(b.key, p, 'large-T write drops its argument after writing it')
